@@ -72,6 +72,22 @@ def v3_encode_request(key, pid, data, rnd):
     return call(lambda: list(p._encode_encrypted_request(pid, bytes(data))))
 
 
+def v3_session(key, steps):
+    """ONE protocol object for a whole sequence of ("enc", pid, data, rnd) / ("dec", packet) steps -> list of results"""
+    p = v3_proto(key)
+    out = []
+    for st in steps:
+        if st[0] == "enc":
+            _rnd["bytes"] = bytes(st[3])
+            out.append(call(lambda: list(p._encode_encrypted_request(st[1], bytes(st[2])))))
+        else:
+            def f():
+                with memoryview(bytes(st[1])) as mv:
+                    return list(p._process_packet(mv))
+            out.append(call(f))
+    return out
+
+
 def v3_encode_handshake(pid, data):
     p = v3_proto(None)
     return call(lambda: list(p._encode_handshake_request(pid, bytes(data))))
